@@ -613,6 +613,13 @@ func c24JSONKinds() []c24JSONKind {
 		{Text: "[1]", V: c23List(c23Num(1))},
 		{Text: `["x"]`, V: c23List(c23Str("x"))},
 		{Text: "[[1]]", V: c23List(c23List(c23Num(1)))},
+		// multi-element lists and multi-member objects: a value of another kind in a non-final / final position
+		{Text: "[1,2]", V: c23List(c23Num(1), c23Num(2))},
+		{Text: `["x",2]`, V: c23List(c23Str("x"), c23Num(2))},
+		{Text: `[1,"x"]`, V: c23List(c23Num(1), c23Str("x"))},
+		{Text: `{"a":1,"b":2}`, V: c23Obj("a", c23Num(1), "b", c23Num(2))},
+		{Text: `{"a":"x","b":2}`, V: c23Obj("a", c23Str("x"), "b", c23Num(2))},
+		{Text: `{"a":1,"b":"x"}`, V: c23Obj("a", c23Num(1), "b", c23Str("x"))},
 		{Missing: true},
 	}
 }
@@ -705,6 +712,12 @@ func c24BuildFiles(r *findings.Run) []c24File {
 			rows[c24Preview] = b
 			add(c24MkJSON("beyond-preview", rows, nil), a.Text != b.Text)
 			for _, c := range K {
+				// quick: triples only over the one-element kinds (the multi-element kinds take part in pairs and
+				// beyond-preview files)
+				multi := func(k c24JSONKind) bool { return strings.Contains(k.Text, ",") }
+				if !r.Thorough() && (multi(a) || multi(b) || multi(c)) {
+					continue
+				}
 				add(c24MkJSON("triple", []c24JSONKind{a, b, c}, nil), a.Text != b.Text || b.Text != c.Text)
 			}
 		}
